@@ -1583,6 +1583,67 @@ func scenarioHalfInit(out string) (detail string, err error) {
 	return fmt.Sprintf("passes: init under a cancelled context failed cleanly (%v); the next Sync initialised, replicated to TXID %d, restore = source", e1, pos.TXID), nil
 }
 
+// ---- scenario: the final Close after a late operation re-initialised a closed database (seed C12e) ----
+//
+// A Sync that passed its IsOpen check before Close and runs after it re-initialises the closed object
+// (SQL handle, file descriptor, read transaction; the known finding closed-db-reinitialised-by-late-sync).
+// The last line of defence is the Close every shutdown path still issues (Store.Close, UnregisterDB,
+// DisableDB): it must release whatever such an operation acquired, whatever the opened flag says.
+func scenarioLateClose(out string) (detail string, err error) {
+	dir := filepath.Join(out, "lateclose") + "/"
+	_ = os.RemoveAll(dir)
+	dbPath := filepath.Join(dir, "src", "db.sqlite")
+	e := &episode{dir: dir, dbPath: dbPath, repDir: dir + "rep", arcDir: dir + "arc", snapDir: dir + "snaps", c: cfg{MinCkptPages: 1000}}
+	for _, d := range []string{filepath.Dir(dbPath), e.repDir, e.arcDir, e.snapDir} {
+		_ = os.MkdirAll(d, 0o755)
+	}
+	app, err := openApp(dbPath, 2)
+	if err != nil {
+		return "", err
+	}
+	defer app.Close()
+	if _, err = app.Exec(`CREATE TABLE t(id INTEGER PRIMARY KEY, w INTEGER, v BLOB)`); err != nil {
+		return "", err
+	}
+	db := e.newDB()
+	db.ShutdownSyncTimeout = 0
+	if err = db.Open(); err != nil {
+		return "", err
+	}
+	if _, err = app.Exec(`INSERT INTO t(w, v) VALUES (1, randomblob(2000))`); err != nil {
+		return "", err
+	}
+	if err = db.SyncAndWait(context.Background()); err != nil {
+		return "", err
+	}
+	rep := map[string]any{"how": "harness conc -halfinit", "history": "NewDB; Open; write; SyncAndWait; Close; Sync (late: re-initialises the closed object); Close; the source must be free of litestream"}
+	e1 := db.Close(context.Background())
+	if _, err = app.Exec(`INSERT INTO t(w, v) VALUES (2, randomblob(2000))`); err != nil {
+		return "", err
+	}
+	e2 := db.Sync(context.Background())
+	h, f, rtx, opened := db.VerifConcHandles()
+	e3 := db.Close(context.Background())
+	h2, f2, rtx2, _ := db.VerifConcHandles()
+	_ = app.Close()
+	if h2 || f2 || rtx2 {
+		violate("C12/close-leaves-reinitialised-db-open",
+			fmt.Sprintf("Close = %v; late Sync = %v re-initialised the closed object (sql=%v file=%v read-tx=%v opened=%v); the following Close = %v "+
+				"left sql=%v file=%v read-tx=%v: litestream keeps its read lock and descriptors on the source after shutdown", e1, e2, h, f, rtx, opened, e3, h2, f2, rtx2), rep)
+		return "leak after the final Close", nil
+	}
+	probe, _ := sql.Open("sqlite", "file:"+dbPath+"?_pragma=busy_timeout(0)")
+	var busy, nlog, nckpt int
+	perr := probe.QueryRow(`PRAGMA wal_checkpoint(TRUNCATE)`).Scan(&busy, &nlog, &nckpt)
+	_ = probe.Close()
+	if perr != nil || busy != 0 {
+		violate("C12/source-still-locked-after-close", fmt.Sprintf("lateclose scenario: TRUNCATE checkpoint after the final Close blocked (busy=%d err=%v)", busy, perr), rep)
+		return "source locked after the final Close", nil
+	}
+	_ = os.RemoveAll(dir)
+	return fmt.Sprintf("passes: late Sync = %v re-initialised=%v; the final Close released everything", e2, h || f || rtx), nil
+}
+
 // ---- scenario: an acknowledging replica sync queued behind an upload pass that started before the
 // newest level-0 file existed (seed C12d: queued callers coalesced with the pass that just finished) ----
 
@@ -1804,7 +1865,7 @@ func cmdConc(args []string) error {
 		return err
 	}
 	var results []epResult
-	var f9detail, sddetail, hidetail, rsdetail, rtdetail, bsdetail, csdetail, cfdetail, qsdetail string
+	var f9detail, sddetail, hidetail, rsdetail, rtdetail, bsdetail, csdetail, cfdetail, qsdetail, lcdetail string
 	finish := func() {
 		_ = cw.Close()
 		st := cw.Stats()
@@ -1817,7 +1878,7 @@ func cmdConc(args []string) error {
 				tot[k] += v
 			}
 		}
-		st.Extra = map[string]any{"episodes": results, "ops_total": tot, "f9": f9detail, "snapdup": sddetail, "halfinit": hidetail, "regsched": rsdetail, "regstress": rtdetail, "basic": bsdetail, "ckptsnap": csdetail, "ckptfail": cfdetail, "queuedsync": qsdetail, "trace_hook": traceEnabled, "trace_events_total": traceTotal}
+		st.Extra = map[string]any{"episodes": results, "ops_total": tot, "f9": f9detail, "snapdup": sddetail, "halfinit": hidetail, "regsched": rsdetail, "regstress": rtdetail, "basic": bsdetail, "ckptsnap": csdetail, "ckptfail": cfdetail, "queuedsync": qsdetail, "lateclose": lcdetail, "trace_hook": traceEnabled, "trace_events_total": traceTotal}
 		_ = WriteJSON(filepath.Join(*out, "stats.json"), st)
 	}
 	wdCW = cw
@@ -1891,6 +1952,16 @@ func cmdConc(args []string) error {
 			hidetail = "scenario could not be set up: " + err.Error()
 		} else {
 			hidetail = d
+		}
+	}
+	if *halfinit && *only < 0 {
+		traceReset()
+		d, err := scenarioLateClose(*out)
+		emitTrace(cw, "lateclose")
+		if err != nil {
+			lcdetail = "scenario could not be set up: " + err.Error()
+		} else {
+			lcdetail = d
 		}
 	}
 	if *queuedsync && *only < 0 {
